@@ -30,7 +30,9 @@ def main():
                 m = re.search(r'kind=(\S+)', v.get('first', ''))
                 kind = m.group(1) if m else ''
                 break
-        if by != '-':
+        if by == '-' and meta.get('out_of_scope'):
+            by, kind = 'n/a', 'outside the quantifiers'
+        if by not in ('-', 'n/a'):
             caught += 1
         rows.append('| %s | %s | %s | %s |' % (t, summ.replace('|', '\\|'), by, kind))
     with open(os.path.join(HERE, 'seeded', 'INDEX.md'), 'w') as f:
